@@ -163,17 +163,28 @@ func (p *Parser) parseWithRecovery(tokens []token.Token) ([]ast.Statement, []err
 
 	statements := make([]ast.Statement, 0, 8)
 	errors := make([]error, 0, 4)
+	// openStmt: the last appended statement has not been closed by a semicolon yet
+	openStmt := false
 
 	for p.currentPos < len(tokens) && !p.isType(models.TokenTypeEOF) {
 		// Skip semicolons between statements
 		if p.isType(models.TokenTypeSemicolon) {
 			p.advance()
+			openStmt = false
 			continue
 		}
 
 		stmtStartPos := p.currentPos
+		startsStmt := p.isStatementStartingKeyword()
 		stmt, err := p.parseStatement()
 		if err != nil {
+			// Tokens that directly follow a parsed statement, before any
+			// semicolon, and do not start a statement belong to that statement:
+			// it is malformed as a whole, so its prefix tree is not a result.
+			if openStmt && !startsStmt && len(statements) > 0 {
+				statements = statements[:len(statements)-1]
+			}
+			openStmt = false
 			// Create a ParseError with position info, preserving original error
 			loc := p.currentLocation()
 			pe := &ParseError{
@@ -196,9 +207,11 @@ func (p *Parser) parseWithRecovery(tokens []token.Token) ([]ast.Statement, []err
 			p.synchronize()
 		} else {
 			statements = append(statements, stmt)
+			openStmt = true
 			// Optionally consume semicolon after statement
 			if p.isType(models.TokenTypeSemicolon) {
 				p.advance()
+				openStmt = false
 			}
 		}
 	}
